@@ -29,6 +29,7 @@ global size_of usize == 8;   // DESIGN.md section 6: usize is 64-bit in all proo
 //@@ FN float/error/assert_finite.rs
 impl<const B: Word> Repr<B> {
 //@@ FN float/repr/is_infinite.rs
+//@@ SIG float/round_ops/smaller_than_one.rs
 }
 impl<R: Round, const B: Word> FBig<R, B> {
 //@@ SIG float/round_ops/split_at_point_internal.rs
